@@ -203,6 +203,24 @@ func c13Run(c *Ctx, k thriftCase, v *thriftVec) {
 	} else {
 		c13Classify(c, k, "thrift.Marshal", mb, want, asis, finding)
 	}
+	// ... and through an Encoder that served the other protocol before its Reset
+	{
+		other := "compact"
+		if compact {
+			other = "binary"
+		}
+		var junk, out bytes.Buffer
+		e := thrift.NewEncoder(protoOf(other).NewWriter(&junk))
+		if pn := protect(func() {
+			e.Encode(x)
+			e.Reset(p.NewWriter(&out))
+			err = e.Encode(x)
+		}); pn != "" || err != nil {
+			c.Diverge("C13", "Encoder(Reset from "+other+")["+k.Proto+"]", "bytes", fmt.Sprintf("panic=%q err=%v", pn, err), "", k)
+		} else if !hasTwoEntryMap(k.Vals) {
+			c13Classify(c, k, "Encoder(Reset from "+other+")", out.Bytes(), want, asis, finding)
+		}
+	}
 	// Reader direction: the specification's bytes (and the long-form alternative) must decode to the value
 	wantTree := tTreeGo(k.Layout, l.structValue(k.Layout, k.Vals))
 	dec := func(what string, b, bAsIs []byte) {
@@ -234,6 +252,15 @@ func c13Run(c *Ctx, k thriftCase, v *thriftVec) {
 	if compact {
 		dec("long-form headers", alt, altasis)
 	}
+}
+
+func hasTwoEntryMap(vals []tVal) bool {
+	for _, v := range vals {
+		if v.Ty == "MAP" && len(v.Xs) > 2 {
+			return true
+		}
+	}
+	return false
 }
 
 func wideEnum(layout []tField) bool {
@@ -374,6 +401,22 @@ func c13Replay(c *Ctx, raw stdjson.RawMessage) {
 	if err != nil || !bytes.Equal(mb, want) {
 		c.Diverge("C13", "thrift.Marshal["+k.Proto+"]", k.Want, hex.EncodeToString(mb), "", k)
 		c.Diverge("C13", "Writer calls["+k.Proto+"]", k.Want, hex.EncodeToString(mb), "", k)
+	}
+	// the Encoder that served the other protocol before its Reset
+	other := "compact"
+	if k.Proto == "compact" {
+		other = "binary"
+	}
+	asis, _ := hex.DecodeString(k.AsIs)
+	var junk, out bytes.Buffer
+	e := thrift.NewEncoder(protoOf(other).NewWriter(&junk))
+	pn := protect(func() {
+		e.Encode(x)
+		e.Reset(p.NewWriter(&out))
+		err = e.Encode(x)
+	})
+	if pn != "" || err != nil || (!bytes.Equal(out.Bytes(), want) && !bytes.Equal(out.Bytes(), asis)) {
+		c.Diverge("C13", "Encoder(Reset from "+other+")["+k.Proto+"]", k.Want, fmt.Sprintf("%x err=%v %s", out.Bytes(), err, pn), "", k)
 	}
 }
 
